@@ -56,6 +56,25 @@ Original GenOriginal(Tape& t, std::ostream& d, int idx) {
       m.vertProperties.push_back(o.affine ? o.coef[c][0] * p.x + o.coef[c][1] * p.y + o.coef[c][2] * p.z + o.coef[c][3] : t.real(-3, 3));
   }
   m.triVerts = g.triVerts;
+  if (!o.affine && o.channels > 0) {
+    // property seams that end at a vertex: a few triangle corners get a property vertex of their own (same
+    // position, other channel values, tied to the shared vertex by the merge vectors), so the two edges of
+    // that triangle at that corner are discontinuous at this end and continuous at the other
+    int ns = t.range(0, 4);
+    size_t ntri = m.triVerts.size() / 3;
+    for (int sidx = 0; sidx < ns; ++sidx) {
+      size_t tri = size_t(t.range(0, int(ntri) - 1)), k = size_t(t.range(0, 2));
+      size_t old = m.triVerts[3 * tri + k];
+      if (old >= nv) continue;  // already split
+      size_t nw = m.vertProperties.size() / m.numProp;
+      for (int j = 0; j < 3; ++j) m.vertProperties.push_back(m.vertProperties[m.numProp * old + j]);
+      for (int c = 0; c < o.channels; ++c) m.vertProperties.push_back(t.real(-3, 3));
+      m.triVerts[3 * tri + k] = nw;
+      m.mergeFromVert.push_back(nw);
+      m.mergeToVert.push_back(old);
+    }
+    if (!m.mergeFromVert.empty()) d << "[seams:" << m.mergeFromVert.size() << "] ";
+  }
   m.runOriginalID = {o.id};
   m.runIndex = {0, m.triVerts.size()};
   size_t nt = m.triVerts.size() / 3;
@@ -116,6 +135,8 @@ void Body(Tape& t, Outcome& o) {
   std::vector<Original> origs;
   for (int i = 0; i < no; ++i) origs.push_back(GenOriginal(t, d, i));
   int ni = t.range(2, 4);
+  bool farApart = t.chance(90);
+  if (farApart) d << "[far apart] ";
   std::vector<Instance> inst;
   for (int i = 0; i < ni; ++i) {
     Instance in;
@@ -125,8 +146,18 @@ void Body(Tape& t, Outcome& o) {
     Manifold base(origs[in.orig].mesh);
     if (base.Status() != Manifold::Error::NoError) { o.fail("prov:import", verif::fmt("import of a valid original failed with Status %d", int(base.Status()))); return; }
     // sometimes as a chain of two transforms (their product is the instance transform)
-    if (t.chance(64)) { mat3x4 T2 = GenT(t, d, i + 5); in.m = base.Transform(in.T).Transform(T2); in.T = Mul(T2, in.T); }
+    // sometimes as a chain of two transforms (their product is the instance transform), with the
+    // first one sometimes realised (the instance evaluated) before the second is applied lazily
+    if (t.chance(100)) {
+      mat3x4 T2 = GenT(t, d, i + 5);
+      Manifold first = base.Transform(in.T);
+      if (t.flip()) { (void)first.NumTri(); (void)first.GetMeshGL64(); d << "[evaluated between] "; }
+      in.m = first.Transform(T2);
+      in.T = Mul(T2, in.T);
+    }
     else in.m = base.Transform(in.T);
+    // some cases keep the instances far apart: bounding-box-disjoint operands take the Compose path
+    if (farApart) { mat3x4 sh(mat3(la::identity), vec3(4.0 * i, 0.37 * i, -0.21 * i)); in.m = in.m.Transform(sh); in.T = Mul(sh, in.T); }
     inst.push_back(in);
   }
   Manifold r = inst[0].m;
@@ -136,7 +167,7 @@ void Body(Tape& t, Outcome& o) {
     d << (op == 0 ? "+" : op == 1 ? "-" : "^") << "I" << i;
     r = r.Boolean(inst[i].m, OpType(op));
   }
-  int refine = t.chance(64) ? t.range(2, 3) : 0;
+  int refine = t.chance(100) ? t.range(2, 3) : 0;
   if (refine) { r = r.Refine(refine); d << " .Refine(" << refine << ")"; }
   if (r.Status() != Manifold::Error::NoError) { o.fail("prov:status", verif::fmt("Status %d", int(r.Status()))); return; }
   MeshGL64 g = r.GetMeshGL64();
